@@ -157,6 +157,68 @@ func runC16(cfg config) {
 				}
 				sink.add(fmt.Sprintf("(%s, %s%%string, %s), %s", coqBool(exp), "\""+n+"\"", coqZ(int64(k)), oc),
 					fmt.Sprintf("pass=%d experimental=%v  %s => %s", pass, exp, src, human), oc, key)
+				// the same name and count on an EMPTY receiver: a placeholder still says that it is not implemented, and nothing
+				// that was accepted with a receiver is refused without one
+				if pass < 2 {
+					dot := strings.Index(src, "."+n+"(")
+					for _, recv := range []string{"{}", "Patient.name.where(false)", "%context.maritalStatus"} {
+						esrc := recv + src[dot:]
+						var e2 *fhirpath.Expression
+						var cerr2, eerr2 error
+						pn, _ := protect(func() {
+							e2, cerr2 = fhirpath.Compile(esrc, copts...)
+							if cerr2 == nil {
+								_, eerr2 = verifhook.Evaluate(e2, input)
+							}
+						})
+						eoc := "OAcceptedOk"
+						switch {
+						case pn:
+							eoc = "OPanic"
+						case cerr2 != nil && errors.Is(cerr2, verifhook.ErrWrongArity):
+							eoc = "ORejectedArity"
+						case cerr2 != nil && strings.Contains(cerr2.Error(), "function identifier can't be resolved"):
+							eoc = "ORejectedUnresolved"
+						case cerr2 != nil:
+							eoc = "ORejectedOther"
+						case eerr2 != nil && errors.Is(eerr2, verifhook.ErrWrongArity):
+							eoc = "OAcceptedArity"
+						case eerr2 != nil && strings.Contains(eerr2.Error(), "not yet implemented"):
+							eoc = "OAcceptedNotImpl"
+						case eerr2 != nil:
+							eoc = "OAcceptedErr"
+						}
+						sink.add(fmt.Sprintf("(%s, %s%%string, %s), %s", coqBool(exp), "\""+n+"\"", coqZ(int64(k)), eoc),
+							fmt.Sprintf("pass=%d experimental=%v  %s => %s (empty receiver)", pass, exp, esrc, eoc), eoc, "")
+					}
+					// the written argument count is what is checked: `{}` is an argument like any other
+					if k >= 1 {
+						close := strings.LastIndex(src, ")")
+						open := strings.Index(src, "."+n+"(") + len(n) + 2
+						args := splitArgs(src[open:close])
+						if len(args) == k {
+							args[k-1] = "{}"
+							bsrc := src[:open] + strings.Join(args, ", ") + ")"
+							var cerr2 error
+							pn, _ := protect(func() { _, cerr2 = fhirpath.Compile(bsrc, copts...) })
+							boc := oc
+							switch {
+							case pn:
+								boc = "OPanic"
+							case cerr2 != nil && errors.Is(cerr2, verifhook.ErrWrongArity):
+								boc = "ORejectedArity"
+							case cerr2 != nil && strings.Contains(cerr2.Error(), "function identifier can't be resolved"):
+								boc = "ORejectedUnresolved"
+							case cerr2 != nil:
+								boc = "ORejectedOther"
+							case !strings.HasPrefix(oc, "OAccepted"):
+								boc = "OAcceptedOk"
+							}
+							sink.add(fmt.Sprintf("(%s, %s%%string, %s), %s", coqBool(exp), "\""+n+"\"", coqZ(int64(k)), boc),
+								fmt.Sprintf("pass=%d experimental=%v  %s => %s (compile only, last argument {})", pass, exp, bsrc, boc), boc, "")
+						}
+					}
+				}
 				// the same call in the other syntactic positions a sub-expression is compiled in: whether it is accepted
 				// may not depend on the position
 				if pass < 2 {
